@@ -181,22 +181,22 @@ func (e *vhSM) check(groups int) {
 					saved = true
 				}
 			}
-			n := 0
+			same := true // every release of this kind in this round carries the same signature
 			for _, o := range e.emits[:c.emits+i+1] {
-				if o.kind == em.kind && o.hr == em.hr {
-					n++
+				if o.kind == em.kind && o.hr == em.hr && (o.sig != em.sig || o.hash != em.hash) {
+					same = false
 				}
 			}
 			switch em.kind {
 			case 'P':
 				verifrt.Assert(saved, "C02:proposal-saved-before-released")
-				verifrt.Assert(n <= 1, "C02:at-most-one-proposal-released-per-round")
+				verifrt.Assert(same, "C02:one-proposal-signature-released-per-round")
 			case 'V':
 				verifrt.Assert(saved, "C02:prevote-saved-before-released")
-				verifrt.Assert(n <= 1, "C02:at-most-one-prevote-released-per-round")
+				verifrt.Assert(same, "C02:one-prevote-signature-released-per-round")
 			case 'C':
 				verifrt.Assert(saved, "C02:precommit-saved-before-released")
-				verifrt.Assert(n <= 1, "C02:at-most-one-precommit-released-per-round")
+				verifrt.Assert(same, "C02:one-precommit-signature-released-per-round")
 			}
 		}
 	}
